@@ -168,6 +168,14 @@ class DefFlags(flow.DefaultCB):
         ats = _atoms(test, pol)
         if ats is None:
             # disjunction: refine only if all but one disjunct are known false
+            t2, p2 = test, pol
+            while isinstance(t2, ast.UnaryOp) and isinstance(t2.op, ast.Not):
+                t2, p2 = t2.operand, not p2
+            if isinstance(t2, ast.BoolOp):
+                # (a and b) is False  ==  (not a) or (not b);   (a or b) is True  ==  a or b
+                open_ = [v for v in t2.values if self._kleene(s, v) is not (not p2)]
+                if len(open_) == 1 and len(t2.values) > 1:
+                    return self.assume(s, open_[0], p2)
             return s
         fl = dict(s.flags)
         for a, v in ats:
